@@ -126,6 +126,12 @@ func copyBinding(b map[*Term]*Term) map[*Term]*Term {
 
 // preInstantiate returns extra assumptions: instances of quantified assumptions.
 func (c *TermCtx) preInstantiate(assumptions []*Term, goal *Term, rounds, maxPerQ int) []*Term {
+	return c.preInstantiateOpt(assumptions, goal, rounds, maxPerQ, false)
+}
+
+// preInstantiateOpt: with goalOnly the ground terms that seed the trigger matching are those of
+// the goal (and of the instances derived from it) only: a small, goal-directed instance set.
+func (c *TermCtx) preInstantiateOpt(assumptions []*Term, goal *Term, rounds, maxPerQ int, goalOnly bool) []*Term {
 	var sites []qsite
 	for _, a := range assumptions {
 		var qs []*Term
@@ -144,6 +150,9 @@ func (c *TermCtx) preInstantiate(assumptions []*Term, goal *Term, rounds, maxPer
 	seen := map[int]bool{}
 	var ground []*Term
 	roots := append([]*Term{}, assumptions...)
+	if goalOnly {
+		roots = nil
+	}
 	if goal != nil {
 		roots = append(roots, goal)
 	}
@@ -152,6 +161,57 @@ func (c *TermCtx) preInstantiate(assumptions []*Term, goal *Term, rounds, maxPer
 	count := map[int]int{}
 	var extra []*Term
 	start := 0
+	// Skolem seeding: a goal "forall j :: P(j)" has been skolemised to P(sk$j). Single-variable
+	// quantified assumptions (typically the same invariant in the previous state, whose array
+	// terms differ from the goal's so that no syntactic trigger match exists) are instantiated
+	// at the goal's skolem constants. Instances of assumptions only: cannot make an invalid
+	// obligation pass.
+	if goal != nil {
+		var sks []*Term
+		skSeen := map[int]bool{}
+		var walkSk func(t *Term)
+		walkSk = func(t *Term) {
+			if skSeen[t.id] {
+				return
+			}
+			skSeen[t.id] = true
+			if t.Op == "var" && strings.HasPrefix(t.Name, "sk$") && len(sks) < 4 {
+				sks = append(sks, t)
+			}
+			for _, a := range t.Args {
+				walkSk(a)
+			}
+		}
+		walkSk(goal)
+		var seeded []*Term
+		for _, s := range sites {
+			if len(s.q.BVars) != 1 {
+				continue
+			}
+			for _, sk := range sks {
+				if sk.Sort != s.q.BVars[0].Sort {
+					continue
+				}
+				b := map[*Term]*Term{s.q.BVars[0]: sk}
+				key := keyOf(s.q, b)
+				if done[key] {
+					continue
+				}
+				done[key] = true
+				count[s.q.id]++
+				inst := c.Subst(s.q.Args[0], b)
+				full := c.Subst(s.top, map[*Term]*Term{s.q: inst})
+				if full.IsTrue() {
+					continue
+				}
+				seeded = append(seeded, full)
+			}
+		}
+		if len(seeded) > 0 {
+			extra = append(extra, seeded...)
+			collectGround(c, seeded, seen, &ground)
+		}
+	}
 	for r := 0; r < rounds; r++ {
 		cur := ground[start:]
 		_ = cur
@@ -391,6 +451,83 @@ func (c *TermCtx) abstractToBV(ts []*Term) []*Term {
 			continue
 		}
 		out = append(out, rec(t))
+	}
+	return out
+}
+
+// coneOfInfluence keeps the assumptions that share an uninterpreted symbol with the goal,
+// transitively up to depth rounds (breadth first). Dropping assumptions only weakens the
+// query, so "unsat" of the filtered query implies "unsat" of the full one.
+func coneOfInfluence(assumptions []*Term, goal *Term, depth int) []*Term {
+	memo := map[int]map[string]bool{}
+	var syms func(t *Term) map[string]bool
+	syms = func(t *Term) map[string]bool {
+		if m, ok := memo[t.id]; ok {
+			return m
+		}
+		m := map[string]bool{}
+		memo[t.id] = m
+		if t.Op == "var" || t.Op == "app" {
+			m[t.Name] = true
+		}
+		for _, a := range t.Args {
+			for k := range syms(a) {
+				m[k] = true
+			}
+		}
+		return m
+	}
+	// hub symbols (heaps, long-lived arrays) occur in a large share of the assumptions and would
+	// connect everything; they do not propagate relevance
+	freq := map[string]int{}
+	for _, a := range assumptions {
+		for k := range syms(a) {
+			freq[k]++
+		}
+	}
+	hubLimit := len(assumptions) / 12
+	if hubLimit < 12 {
+		hubLimit = 12
+	}
+	S := map[string]bool{}
+	for k := range syms(goal) {
+		S[k] = true
+	}
+	in := make([]bool, len(assumptions))
+	for r := 0; r < depth; r++ {
+		add := map[string]bool{}
+		changed := false
+		for i, a := range assumptions {
+			if in[i] {
+				continue
+			}
+			hit := false
+			for k := range syms(a) {
+				if S[k] && (r == 0 || freq[k] <= hubLimit) {
+					hit = true
+					break
+				}
+			}
+			if hit {
+				in[i] = true
+				changed = true
+				for k := range syms(a) {
+					add[k] = true
+				}
+			}
+		}
+		for k := range add {
+			S[k] = true
+		}
+		if !changed {
+			break
+		}
+	}
+	var out []*Term
+	for i, a := range assumptions {
+		if in[i] {
+			out = append(out, a)
+		}
 	}
 	return out
 }
